@@ -24,8 +24,10 @@ import IbicusModel.Lemmas.GenIsimipFreq
 #print axioms Props.C09.step4_order
 #print axioms Props.C09.step6_mono
 #print axioms Props.C09.step6_mono_unbounded
+#print axioms Props.C09.window_mono
 #print axioms Props.C09.censored_qm_order
 #print axioms Props.C09.censored_qm_subthreshold_pair_can_invert
+#print axioms Props.C09.hurdle_qm_order
 -- the lemmas that carry the weight (shape of step 6, every branch of the adjustment, instances of the laws)
 #print axioms Lemmas.C09.step6Full_eq
 #print axioms Lemmas.C09.step6After_shape
